@@ -109,11 +109,18 @@ type faultWriter struct {
 	e        bool
 	calls    int
 	accepted []byte
+	failed   bool
+	// a writer may do what it likes inside Write, writing other messages elsewhere included (a tee, a logger):
+	// when set, every Write first encodes this other message into a writer of its own
+	nested *sse.Message
 }
 
 func (w *faultWriter) Write(p []byte) (int, error) {
 	idx := w.calls
 	w.calls++
+	if w.nested != nil {
+		_, _ = w.nested.WriteTo(&faultWriter{k: -1})
+	}
 	if idx == w.k {
 		n := w.j
 		if n > len(p) {
@@ -121,6 +128,7 @@ func (w *faultWriter) Write(p []byte) (int, error) {
 		}
 		w.accepted = append(w.accepted, p[:n]...)
 		if w.e || w.j < len(p) {
+			w.failed = true
 			return n, errFault
 		}
 		return n, nil
@@ -140,6 +148,11 @@ func runWT(args []string) string {
 		k = atoi(args[1])
 	}
 	w := &faultWriter{k: k, j: atoi(args[2]), e: args[3] == "1"}
+	if (len(args[0])+len(args[2]))%3 == 1 {
+		w.nested = &sse.Message{ID: sse.ID("other"), Type: sse.Type("other"), Retry: 7 * time.Second}
+		w.nested.AppendData(strings.Repeat("other message\n", 1+len(args[0])%5))
+		w.nested.AppendComment("other")
+	}
 	n, err := m.WriteTo(w)
 	e := "nil"
 	if err != nil {
@@ -149,7 +162,7 @@ func runWT(args []string) string {
 			e = "OTHER"
 		}
 	}
-	return fmt.Sprintf("%d | %s | %s | %d", n, e, hx(w.accepted), w.calls)
+	return fmt.Sprintf("%d | %s | %s | %d | %s", n, e, hx(w.accepted), w.calls, b01(w.failed))
 }
 
 type fieldLike interface {
